@@ -102,10 +102,38 @@ fn from_name(from: Option<Fmt>) -> &'static str {
 	from.map(Fmt::name).unwrap_or("detect")
 }
 
+/// Runs one breadcrumb of this file's forms again (three times): a reader that
+/// fails at an offset, or one that over-reports on its nth call.
+pub fn replay_crumb(text: &str, data: &[u8]) -> Option<String> {
+	let f: Vec<&str> = text.split(' ').collect();
+	if f.len() < 4 {
+		return None;
+	}
+	let from = if f[1] == "detect" { None } else { Some(Fmt::from_name(f[1])?) };
+	let to = Fmt::from_name(f[2])?;
+	let num = |key: &str| -> Option<usize> { f.iter().find_map(|t| t.strip_prefix(key)?.strip_prefix('=')?.parse().ok()) };
+	let data = Rc::new(data.to_vec());
+	let mut last = None;
+	for _ in 0..3 {
+		let seen = match f[0] {
+			"reader-fault" => translate(Probe::new(&data, num("cap")?, Some(num("fail_at")?)), from, to),
+			"over-reporting-reader" => translate(
+				Liar { data: data.clone(), pos: 0, cap: num("cap")?, nth: num("call")?, excess: num("excess")?, calls: 0, seen: Rc::new(Cell::new(None)) },
+				from,
+				to,
+			),
+			_ => return None,
+		};
+		last = Some(format!("{seen:?}"));
+	}
+	last
+}
+
 /// (a) every read size, and the slice path.
 fn read_sizes(out: &mut Out, label: &str, data: &Rc<Vec<u8>>, from: Option<Fmt>, to: Fmt) {
 	let mut verdicts: Vec<bool> = vec![];
 	for cap in READ_SIZES {
+		crate::util::crumb::set(&crate::xtapi::crumb_text(&crate::xtapi::Supply::Reader(vec![cap]), from, to), data);
 		let got = translate(Probe::new(data, cap, None), from, to);
 		out.eval("no_panic_any_read_size", &format!("{}{}{cap}", hex(data), from_name(from)), got == Seen::Ok);
 		match &got {
@@ -118,6 +146,7 @@ fn read_sizes(out: &mut Out, label: &str, data: &Rc<Vec<u8>>, from: Option<Fmt>,
 			Seen::Err(_) => verdicts.push(false),
 		}
 	}
+	crate::util::crumb::set(&crate::xtapi::crumb_text(&crate::xtapi::Supply::Slice, from, to), data);
 	let mut w = FaultWriter::new(None, vec![]);
 	let slice = catch(|| xt::translate_slice(data, from.map(Fmt::xt), to.xt(), &mut w));
 	out.eval("no_panic_slice", &format!("{}{}", hex(data), from_name(from)), matches!(slice, Ok(Ok(()))));
@@ -139,6 +168,7 @@ fn faults_everywhere(out: &mut Out, label: &str, data: &Rc<Vec<u8>>, from: Optio
 	for k in 0..=data.len() {
 		let probe = Probe::new(data, cap, Some(k));
 		let raised = probe.raised.clone();
+		crate::util::crumb::set(&format!("reader-fault {} json cap={cap} fail_at={k}", from_name(from)), data);
 		let got = translate(probe, from, Fmt::Json);
 		out.eval("reader_error_at_every_offset", &format!("{}{}{cap}@{k}", hex(data), from_name(from)), raised.get());
 		let what = format!("[{label}] input {} as {} reads of {cap}, reader fails at offset {k}", hex(data), from_name(from));
@@ -176,6 +206,7 @@ fn liars(out: &mut Out, label: &str, data: &Rc<Vec<u8>>, from: Option<Fmt>, cap:
 	for nth in 1..=n_calls {
 		for excess in (1..=8usize).chain([usize::MAX / 2]) {
 			let seen = Rc::new(Cell::new(None));
+			crate::util::crumb::set(&format!("over-reporting-reader {} json cap={cap} call={nth} excess={excess}", from_name(from)), data);
 			let got = translate(Liar { data: data.clone(), pos: 0, cap, nth, excess, calls: 0, seen: seen.clone() }, from, Fmt::Json);
 			let Some((size, n)) = seen.get() else {
 				out.count("liars.nth_call_not_reached");
